@@ -452,7 +452,7 @@ def run(ctx):
     except ValueError:
         capn = 0
     if ctx.quick:
-        pairs = vlib.sample(ctx, pairs_all, 700)
+        pairs = vlib.sample(ctx, pairs_all, 2400)
     elif capn:
         pairs = vlib.sample(ctx, pairs_all, capn)
     else:
